@@ -37,7 +37,10 @@ type Gen struct {
 	lastRootsIdx uint64
 	script       []func() (structs.MessageType, any, string) // scripted multi-step scenarios, consumed before random commands
 	NoSerf       bool                                        // a running leader reaps nodes carrying a serfHealth check that are no serf members
-	nsess        int                                         // sessions are minted with fresh ids, as the Session endpoint does
+	lastCreate   *structs.SessionRequest
+	lastEst      map[string]string // peering id -> last establishment / pending secret written (so that exchanges and promotions sometimes match)
+	lastPend     map[string]string
+	nsess        int // sessions are minted with fresh ids, as the Session endpoint does
 }
 
 // recentSess picks one of the last few minted session ids (or a never-minted one)
@@ -54,7 +57,7 @@ func (g *Gen) recentSess() string {
 
 func NewGen(seed int64) *Gen {
 	// raft indexes of client commands never start at 1 (bootstrap configuration entries come first)
-	g := &Gen{R: rand.New(rand.NewSource(seed)), lastKVIdx: map[string]uint64{}, Idx: 10}
+	g := &Gen{R: rand.New(rand.NewSource(seed)), lastKVIdx: map[string]uint64{}, Idx: 10, lastEst: map[string]string{}, lastPend: map[string]string{}}
 	g.loadScripts(seed)
 	return g
 }
@@ -100,7 +103,7 @@ func (g *Gen) someIdx() uint64 {
 func (g *Gen) nodeService(peer string, node ...string) *structs.NodeService {
 	name := g.pick(gSvcNames)
 	id := name + fmt.Sprint(1+g.R.Intn(2))
-	ns := &structs.NodeService{ID: id, Service: name, Port: 1000 + g.R.Intn(3), Tags: []string{[]string{"v1", "v2", "primary"}[len(id)%3+0*g.R.Intn(3)]},
+	ns := &structs.NodeService{ID: id, Service: name, Port: 1000 + g.R.Intn(3), Tags: []string{[]string{"v1", "v2"}[int(id[len(id)-1])%2]},
 		Meta: map[string]string{"m": g.pick(gVals)}, PeerName: peer}
 	switch g.R.Intn(12) {
 	case 0, 1:
@@ -264,6 +267,11 @@ func (g *Gen) session() (structs.MessageType, any, string) {
 		return structs.SessionRequestType, req, "session destroy"
 	}
 	req.Op = structs.SessionCreate
+	if g.lastCreate != nil && g.chance(10) {
+		// the previous create committed a second time (a retried forward); same id, same node, same checks
+		dup := *g.lastCreate
+		return structs.SessionRequestType, &dup, "session create (resubmitted)"
+	}
 	// a fresh id per create, as the endpoint does; drawn from the generator's own stream
 	g.nsess++
 	id := fmt.Sprintf("s%d", g.nsess)
@@ -277,6 +285,7 @@ func (g *Gen) session() (structs.MessageType, any, string) {
 	if g.chance(6) {
 		req.Session.ServiceChecks = []structs.ServiceCheck{{ID: g.pick(gChecks)}}
 	}
+	g.lastCreate = req
 	return structs.SessionRequestType, req, "session create"
 }
 
@@ -537,8 +546,9 @@ func (g *Gen) aclCmd() (structs.MessageType, any, string) {
 		if g.chance(4) {
 			t.ServiceIdentities = []*structs.ACLServiceIdentity{{ServiceName: g.pick(gSvcNames)}}
 		}
-		if g.chance(5) {
-			exp := time.Unix(1900000000, 0).UTC()
+		if g.chance(3) {
+			// far in the future, or already passed and waiting for the reaper
+			exp := time.Unix([]int64{1900000000, 1500000000}[g.R.Intn(2)], 0).UTC()
 			t.ExpirationTime = &exp
 		}
 		t.ModifyIndex = g.someIdx()
@@ -593,8 +603,11 @@ func (g *Gen) misc() (structs.MessageType, any, string) {
 		return structs.UpdateVirtualIPRequestType, state.ServiceVirtualIP{Service: psn, ManualIPs: ips}, "manual-vips"
 	case 5:
 		p := g.pick(gPeers)
-		pr := &pbpeering.Peering{ID: UUID("peering-" + p), Name: p, State: pbpeering.PeeringState_ACTIVE, PeerServerName: "srv." + p,
-			PeerServerAddresses: []string{"10.0.0.9:8502"}, Meta: map[string]string{"m": g.pick(gVals)}}
+		pr := &pbpeering.Peering{ID: UUID("peering-" + p), Name: p, State: pbpeering.PeeringState_ACTIVE, Meta: map[string]string{"m": g.pick(gVals)}}
+		if p == "peer-a" {
+			// peer-a was established from a token (this side dials); peer-b generated the token (this side accepts)
+			pr.PeerServerName, pr.PeerServerAddresses = "srv."+p, []string{"10.0.0.9:8502"}
+		}
 		if g.chance(5) {
 			pr.State = pbpeering.PeeringState_DELETING
 		}
@@ -613,9 +626,43 @@ func (g *Gen) misc() (structs.MessageType, any, string) {
 		return structs.PeeringTrustBundleWriteType, &pbpeering.PeeringTrustBundleWriteRequest{PeeringTrustBundle: &pbpeering.PeeringTrustBundle{
 			PeerName: p, TrustDomain: p + ".consul", RootPEMs: []string{"pem-" + g.pick(gVals)}}}, "trust-bundle write"
 	}
-	p := g.pick(gPeers)
-	return structs.PeeringSecretsWriteType, &pbpeering.SecretsWriteRequest{PeerID: UUID("peering-" + p),
-		Request: &pbpeering.SecretsWriteRequest_GenerateToken{GenerateToken: &pbpeering.SecretsWriteRequest_GenerateTokenRequest{EstablishmentSecret: UUID("secret-" + g.pick(gVals))}}}, "peering secrets"
+	return g.peeringSecrets(g.pick(gPeers), g.R.Intn(4))
+}
+
+// peeringSecrets walks the secret life cycle of a peering: establishment secret (token generated), exchange for a
+// pending stream secret, promotion to the active stream secret (accepting side); the single Establish write of a
+// dialing side.  Secret ids come from a small pool so that uniqueness rejections happen too.
+func (g *Gen) peeringSecrets(p string, step int) (structs.MessageType, any, string) {
+	id := UUID("peering-" + p)
+	sec := func() string { return UUID("sec-" + fmt.Sprint(g.R.Intn(6))) }
+	req := &pbpeering.SecretsWriteRequest{PeerID: id}
+	desc := ""
+	switch step {
+	case 0:
+		s := sec()
+		g.lastEst[p] = s
+		req.Request = &pbpeering.SecretsWriteRequest_GenerateToken{GenerateToken: &pbpeering.SecretsWriteRequest_GenerateTokenRequest{EstablishmentSecret: s}}
+		desc = "generate-token"
+	case 1:
+		est, pend := g.lastEst[p], sec()
+		if est == "" || g.chance(5) {
+			est = sec()
+		}
+		g.lastPend[p] = pend
+		req.Request = &pbpeering.SecretsWriteRequest_ExchangeSecret{ExchangeSecret: &pbpeering.SecretsWriteRequest_ExchangeSecretRequest{EstablishmentSecret: est, PendingStreamSecret: pend}}
+		desc = "exchange-secret"
+	case 2:
+		pend := g.lastPend[p]
+		if pend == "" || g.chance(5) {
+			pend = sec()
+		}
+		req.Request = &pbpeering.SecretsWriteRequest_PromotePending{PromotePending: &pbpeering.SecretsWriteRequest_PromotePendingRequest{ActiveStreamSecret: pend}}
+		desc = "promote-pending"
+	default:
+		req.Request = &pbpeering.SecretsWriteRequest_Establish{Establish: &pbpeering.SecretsWriteRequest_EstablishRequest{ActiveStreamSecret: sec()}}
+		desc = "establish"
+	}
+	return structs.PeeringSecretsWriteType, req, "peering secrets " + desc
 }
 
 // Req is a generated command before encoding.
@@ -674,7 +721,90 @@ func (g *Gen) loadScripts(seed int64) {
 				Session: structs.Session{ID: UUID(id), Node: "n1", Behavior: structs.SessionKeysRelease, LockDelay: delay}}, "session create"
 		}
 	}
-	switch seed % 3 {
+	reg := func(node string, svc *structs.NodeService) step {
+		return func() (structs.MessageType, any, string) {
+			return structs.RegisterRequestType, &structs.RegisterRequest{Datacenter: "dc1", Node: node, Address: nodeAddr(node), Service: svc}, "register " + node
+		}
+	}
+	sysmeta := func(key string) step {
+		return func() (structs.MessageType, any, string) {
+			return structs.SystemMetadataRequestType, &structs.SystemMetadataRequest{Datacenter: "dc1", Op: structs.SystemMetadataUpsert,
+				Entry: &structs.SystemMetadataEntry{Key: key, Value: "true"}}, "system-metadata"
+		}
+	}
+	ce := func(e structs.ConfigEntry) step {
+		return func() (structs.MessageType, any, string) {
+			_ = e.Normalize()
+			return structs.ConfigEntryRequestType, &structs.ConfigEntryRequest{Datacenter: "dc1", Op: structs.ConfigEntryUpsert, Entry: e}, "config-entry upsert " + e.GetKind()
+		}
+	}
+	tgw := func(names ...string) step {
+		t := &structs.TerminatingGatewayConfigEntry{Kind: structs.TerminatingGateway, Name: "tgw"}
+		for _, n := range names {
+			t.Services = append(t.Services, structs.LinkedService{Name: n})
+		}
+		return ce(t)
+	}
+	switch seed % 6 {
+	case 2:
+		// virtual IPs of services behind a terminating gateway: both feature flags on (as the leader sets them), a gateway
+		// instance, its config entry created with one service and then UPDATED to link several more in one write, an
+		// ingress gateway (sorting before the terminating one in gateway-services) exposing one of them, and the last
+		// catalog instance of that service going away while the terminating gateway still links it
+		g.script = []step{
+			sysmeta(structs.SystemMetadataVirtualIPsEnabled), sysmeta(structs.SystemMetadataTermGatewayVirtualIPsEnabled),
+			reg("n1", &structs.NodeService{Kind: structs.ServiceKindTerminatingGateway, ID: "tgw1", Service: "tgw", Port: 8443}),
+			tgw("web"),
+			tgw("web", "api", "db", "cache", "ext1", "ext2"),
+			ce(&structs.IngressGatewayConfigEntry{Kind: structs.IngressGateway, Name: "igw",
+				Listeners: []structs.IngressListener{{Port: 8080, Protocol: "tcp", Services: []structs.IngressService{{Name: "db"}}}}}),
+			reg("n2", &structs.NodeService{ID: "db1", Service: "db", Port: 1000, Tags: []string{"v1"}}),
+			func() (structs.MessageType, any, string) {
+				return structs.DeregisterRequestType, &structs.DeregisterRequest{Datacenter: "dc1", Node: "n2", ServiceID: "db1"}, "deregister"
+			},
+			reg("n2", &structs.NodeService{ID: "ext9", Service: "ext9", Port: 1000, Connect: structs.ServiceConnect{Native: true}}),
+		}
+	case 3:
+		// a session create committed twice (retried forward), then used; the accepting side of a peering taking its
+		// stream secret through establishment -> pending -> active, and a second token generated afterwards
+		g.script = []step{
+			reg("n1", nil), sess("dup1", 0), sess("dup1", 0), kv("lock", "dup/key", "dup1"),
+			func() (structs.MessageType, any, string) {
+				return structs.PeeringWriteType, &pbpeering.PeeringWriteRequest{Peering: &pbpeering.Peering{ID: UUID("peering-peer-b"), Name: "peer-b",
+					State: pbpeering.PeeringState_PENDING, Meta: map[string]string{}}}, "peering write"
+			},
+			func() (structs.MessageType, any, string) { return g.peeringSecrets("peer-b", 0) },
+			func() (structs.MessageType, any, string) { return g.peeringSecrets("peer-b", 1) },
+			func() (structs.MessageType, any, string) { return g.peeringSecrets("peer-b", 2) },
+			func() (structs.MessageType, any, string) { return g.peeringSecrets("peer-b", 0) },
+			func() (structs.MessageType, any, string) { return g.peeringSecrets("peer-b", 1) },
+			func() (structs.MessageType, any, string) { return g.peeringSecrets("peer-b", 2) },
+		}
+	case 4:
+		// ACL objects with a lifetime: a login-style token that is already past its expiration time and waits for the
+		// reaper, one that expires far in the future, both linked to a policy and a role
+		tok := func(id string, exp int64) step {
+			return func() (structs.MessageType, any, string) {
+				e := time.Unix(exp, 0).UTC()
+				t := &structs.ACLToken{AccessorID: UUID(id), SecretID: UUID("secret-" + id), Description: "scripted", CreateTime: time.Unix(1400000000, 0).UTC(),
+					ExpirationTime: &e, Policies: []structs.ACLTokenPolicyLink{{ID: UUID("p1")}}, Roles: []structs.ACLTokenRoleLink{{ID: UUID("r1")}}}
+				t.SetHash(true)
+				return structs.ACLTokenSetRequestType, &structs.ACLTokenBatchSetRequest{Tokens: structs.ACLTokens{t}}, "acl token set"
+			}
+		}
+		g.script = []step{
+			func() (structs.MessageType, any, string) {
+				p := &structs.ACLPolicy{ID: UUID("p1"), Name: "pol-p1", Rules: `service "web" { policy = "read" }`}
+				p.SetHash(true)
+				return structs.ACLPolicySetRequestType, &structs.ACLPolicyBatchSetRequest{Policies: structs.ACLPolicies{p}}, "acl policy set"
+			},
+			func() (structs.MessageType, any, string) {
+				r := &structs.ACLRole{ID: UUID("r1"), Name: "role-r1", Policies: []structs.ACLRolePolicyLink{{ID: UUID("p1")}}}
+				r.SetHash(true)
+				return structs.ACLRoleSetRequestType, &structs.ACLRoleBatchSetRequest{Roles: structs.ACLRoles{r}}, "acl role set"
+			},
+			tok("t-expired", 1500000000), tok("t-later", 1900000000),
+		}
 	case 0:
 		g.script = []step{
 			func() (structs.MessageType, any, string) {
@@ -782,3 +912,29 @@ func (g *Gen) nextReq(mix string) (structs.MessageType, any, string) {
 }
 
 var _ = acl.EnterpriseMeta{}
+
+// JSONable converts msgpack-decoded generic values (map[interface{}]interface{}, []byte) into JSON-encodable ones.
+func JSONable(v any) any {
+	switch x := v.(type) {
+	case map[any]any:
+		m := map[string]any{}
+		for k, e := range x {
+			m[fmt.Sprint(k)] = JSONable(e)
+		}
+		return m
+	case map[string]any:
+		m := map[string]any{}
+		for k, e := range x {
+			m[k] = JSONable(e)
+		}
+		return m
+	case []any:
+		for i := range x {
+			x[i] = JSONable(x[i])
+		}
+		return x
+	case []byte:
+		return string(x)
+	}
+	return v
+}
